@@ -545,6 +545,9 @@ func runC03chunk(mult string, cases []c03case, stats *c03stats) []c03result {
 			}
 			r := d.RunBlock(chain.Block{Events: evs}, nil)
 			stats.add("replay-first", 1)
+			// (the index holds every transaction of a block with its result: replays of transactions
+			// whose handler failed are judged like replays of successful ones)
+			stats.add(fmt.Sprintf("replay-first-handler-failed=%v", r.Txs[0].Code != 0), 1)
 			if c.Replay == "same-block" {
 				// recorded, not judged: the node's index cannot contain the first copy yet
 				stats.add(fmt.Sprintf("same-block-second-copy-code=%d", r.Txs[1].Code), 1)
